@@ -115,9 +115,12 @@ def handle : List Sexp → Option Sexp
         | some xs2 => decide (flatten p xs2 = flatten p xs)
         | none => false
       -- input-side form of the text hypotheses (xml_roundtrip_partial), for the widest codec
-      let inInput := inDom && inputTextOK (fun _ => true) p xs
+      let inInput := inDom && inputTextOKm (fun _ => true) p xs
+      let inputHolds := match serRun SerSt.init (flatten p xs) with
+        | some out => decide (Reader.read out = some (mergeR (canonX xs)))
+        | none => false
       pure (.list [ofBool inDom, ofBool holds, ofBool inText, ofBool textHolds, ofBool inAscii, ofBool asciiHolds,
-                   ofBool inIdem, ofBool idemHolds, ofBool inInput])
+                   ofBool inIdem, ofBool idemHolds, ofBool inInput, ofBool inputHolds])
   | [.atom "reparse", .str t] =>
       -- what XMLParser + EmptyTagFilter deliver for this text, according to the specification side
       match Reader.tokenize t with
